@@ -1,7 +1,7 @@
 (* C06 — within-line emphasis marks exactly what changed.  Statements only. *)
 From Coq Require Import List Bool NArith Arith.
 Import ListNotations.
-From DV Require Import Text Align AlignFacts AlignSame Tokenize TokenizeFacts Realign Pairing PairingFacts.
+From DV Require Import Text Align AlignFacts AlignSame AlignLine Tokenize TokenizeFacts Realign Pairing PairingFacts.
 
 (* The tokens of a line concatenate to the line, and the first token is the empty token —
    for every tokeniser of this shape (any word predicate). *)
@@ -50,6 +50,13 @@ Theorem C06_every_token_annotated_once : forall (T : Type) (eqb : T -> T -> bool
   length (filter (fun o => match o with OIns => false | _ => true end) (operations T eqb x y)) = length x /\
   length (filter (fun o => match o with ODel => false | _ => true end) (operations T eqb x y)) = length y.
 Proof. exact operations_cover. Qed.
+
+(* ... in particular for whole lines: any line, tokenised with any word predicate and compared
+   with itself, yields one NoOp per token and nothing else. *)
+Theorem C06_same_line_no_emphasis : forall (is_word : N -> bool) (l : text),
+  operations text text_eqb (tokenize is_word l) (tokenize is_word l) =
+  repeat ONoOp (length (tokenize is_word l)).
+Proof. exact same_line_no_emphasis. Qed.
 
 (* Non-vacuity: "aaa bb" vs "aaa cc" *)
 Example C06_example :
